@@ -156,9 +156,9 @@ package priority
 //@   ensures [* C15] strictlyDesc(dsc.uncrowded) && allIn(dsc.uncrowded, gPset)
 //@   ensures [*] dsc.uncrowded.arr == 0 || dsc.uncrowded.arr != dsc.priorities.arr
 //@   loop 0
-//@     invariant [*] strictlyDesc(dsc.uncrowded) && allIn(dsc.uncrowded, gPset) && len(dsc.uncrowded) <= $i
+//@     invariant [* C15] strictlyDesc(dsc.uncrowded) && allIn(dsc.uncrowded, gPset) && len(dsc.uncrowded) <= $i
 //@     invariant [*] dsc.uncrowded.arr == 0 || (dsc.uncrowded.arr != dsc.priorities.arr && allocated(dsc.uncrowded.arr))
-//@     invariant [*] forall j :: ($i <= j && j < len(dsc.priorities) && len(dsc.uncrowded) > 0) ==> dsc.uncrowded[len(dsc.uncrowded) - 1] > dsc.priorities[j]
+//@     invariant [* C15] forall j :: ($i <= j && j < len(dsc.priorities) && len(dsc.uncrowded) > 0) ==> dsc.uncrowded[len(dsc.uncrowded) - 1] > dsc.priorities[j]
 
 //@ func (*Discipline).updateUseful
 //@   requires [*] WF(dsc)
@@ -167,9 +167,9 @@ package priority
 //@   ensures [* C15] strictlyDesc(dsc.useful) && allIn(dsc.useful, gPset)
 //@   ensures [*] dsc.useful.arr == 0 || dsc.useful.arr != dsc.priorities.arr
 //@   loop 0
-//@     invariant [*] strictlyDesc(dsc.useful) && allIn(dsc.useful, gPset) && len(dsc.useful) <= $i
+//@     invariant [* C15] strictlyDesc(dsc.useful) && allIn(dsc.useful, gPset) && len(dsc.useful) <= $i
 //@     invariant [*] dsc.useful.arr == 0 || (dsc.useful.arr != dsc.priorities.arr && allocated(dsc.useful.arr))
-//@     invariant [*] forall j :: ($i <= j && j < len(dsc.priorities) && len(dsc.useful) > 0) ==> dsc.useful[len(dsc.useful) - 1] > dsc.priorities[j]
+//@     invariant [* C15] forall j :: ($i <= j && j < len(dsc.priorities) && len(dsc.useful) > 0) ==> dsc.useful[len(dsc.useful) - 1] > dsc.priorities[j]
 
 //@ func (*Discipline).updateUsefulLikeUncrowded
 //@   requires [*] WF(dsc)
@@ -178,9 +178,9 @@ package priority
 //@   ensures [* C15] strictlyDesc(dsc.useful) && allIn(dsc.useful, gPset)
 //@   ensures [*] dsc.useful.arr == 0 || dsc.useful.arr != dsc.priorities.arr
 //@   loop 0
-//@     invariant [*] strictlyDesc(dsc.useful) && allIn(dsc.useful, gPset) && len(dsc.useful) <= $i
+//@     invariant [* C15] strictlyDesc(dsc.useful) && allIn(dsc.useful, gPset) && len(dsc.useful) <= $i
 //@     invariant [*] dsc.useful.arr == 0 || (dsc.useful.arr != dsc.priorities.arr && allocated(dsc.useful.arr))
-//@     invariant [*] forall j :: ($i <= j && j < len(dsc.priorities) && len(dsc.useful) > 0) ==> dsc.useful[len(dsc.useful) - 1] > dsc.priorities[j]
+//@     invariant [* C15] forall j :: ($i <= j && j < len(dsc.priorities) && len(dsc.useful) > 0) ==> dsc.useful[len(dsc.useful) - 1] > dsc.priorities[j]
 
 //@ func (*Discipline).isTacticFilled
 //@   requires [*] dsc != nil && dsc.tactic != nil
